@@ -271,9 +271,18 @@ def load(config="lib"):
     F.forwarded = {}
     if not os.environ.get("ESPADA_NO_INLINE"):
         from . import desugar, inline
-        if not os.environ.get("ESPADA_NO_DESUGAR"):
-            F.desugared = desugar.normalise(F)
-        F.inlined = inline.normalise(F)
+        # desugaring exposes direct closure calls for the inliner; splicing a closure can expose a further pipeline or an
+        # adaptor-sourced loop (the iterator a flat_map closure returns): alternate until nothing changes (at most 3 rounds)
+        for _round in range(3):
+            d = {} if os.environ.get("ESPADA_NO_DESUGAR") else desugar.normalise(F)
+            i = inline.normalise(F)
+            F.desugared.update(d)
+            for k, v in i.items():
+                F.inlined[k] = sorted(set(F.inlined.get(k, [])) | set(v))
+            if not d or (_round > 0 and not i and not d):
+                break
+            if _round == 0 and not i:
+                break
         from . import placefwd
         F.forwarded = placefwd.normalise(F)
     return F
